@@ -24,6 +24,7 @@ import RSVerif.Proofs.LocatorSpec
 import RSVerif.Proofs.RestoredBasic
 import RSVerif.Proofs.FlatEndToEnd
 import RSVerif.Proofs.SrcCodecSpec
+import RSVerif.Proofs.SrcUtilsSpec
 
 namespace RS
 
@@ -155,5 +156,22 @@ theorem source_decoders_are_model_decoders {V : Type} [ShardAlg V] (s : Sched) (
         (runOps s lw ops mem).mem = decodeLow s lw k r recv mem) :=
   ⟨fun hsup hsz => src_decode_high s lw k r hsup recv mem hsz,
    fun hsup hsz => src_decode_low s lw k r hsup recv mem hsz⟩
+
+open RS.SrcU in
+/-- the two decoder helpers outside the codec bodies AS TRANSLATED FROM TODAY'S SOURCE (`Gen/SrcUtils.lean`,
+    regenerated by `/verif/translate/rs2lean_utils.py` on every run): `utils::eval_poly` — the sequential in-place
+    Walsh transform `fwht` with its `while` / `step_by` loops and `u16` index arithmetic, the pointwise
+    multiplication by `LOG_WALSH` modulo 65535, the second transform — never panics and is the model's
+    `evalPolyWith` for every erasure array of 65536 16-bit entries and every truncated size; and
+    `utils::formal_derivative` makes, on up to 65536 shards, exactly the `xor_within` calls whose composition is
+    the model's `formalDerivative`.  (The decoders' own bodies are `source_decoders_are_model`.) -/
+theorem source_decoder_helpers_are_model {V : Type} [ShardAlg V] (lw er : Array Nat) (t : Nat) (a : Array V)
+    (hl : lw.size = 65536) (he : er.size = 65536) (hlw : ∀ i, lw.getD i 0 < 65536)
+    (her : ∀ i, er.getD i 0 < 65536) (ht : t ≤ 65536) (ha : a.size ≤ 65536) :
+    U_eval_poly lw er t = some (evalPolyWith lw er t) ∧
+    (∃ calls, U_formal_derivative a.size = some calls ∧
+      calls.foldl (fun (b : Array V) (c : Nat × Nat × Nat) => xorWithin b c.1 c.2.1 c.2.2) a = formalDerivative a) ∧
+    (U_xor_within_delegates = true ∧ U_fft_skew_end_delegates = true ∧ U_ifft_skew_end_delegates = true) :=
+  ⟨src_eval_poly lw er hl he hlw her t ht, src_formal_derivative a ha, src_delegations⟩
 
 end RS
